@@ -289,7 +289,8 @@ def frame_case(d, ev):
         fp = lambda: {"perf": G.fingerprint_performance(obj), "ids": [id(p) for p in obj.performedparts],
                       "attrs": sorted(k for k in vars(obj))}
     else:
-        sd = G.random_score_desc(rng, nparts=1 if d["what"] == "part" else rng.randint(1, 3), n_measures=rng.randint(2, 4))
+        sd = G.random_score_desc(rng, nparts=1 if d["what"] == "part" else rng.randint(1, 3), n_measures=rng.randint(2, 4),
+                                 p_uneven=rng.choice([0.0, 0.4]))
         for pd in sd["parts"]:
             if rng.random() < 0.5:
                 add_repeat(pd, rng)
